@@ -6,7 +6,7 @@ package xmss
 // build tag `verif`; it adds no symbol.
 
 //@ tagset ALLX := C01 C02 C04 C06 C08 C09 C11 C14 C15 C16
-//@ tagset XF := C01 C04 C06
+//@ tagset XF := C01 C04 C06 C01L
 
 // WOTS parameter sets for n = 32 (RFC 8391 section 3.1.1): len1 = ceil(8n/lg w), len2 = floor(lg(len1 (w-1))/lg w) + 1
 //@ pred wotsOK(p) := p.n == 32 && ((p.w == 4 && p.logW == 2 && p.len1 == 128 && p.len2 == 5 && p.len == 133 && p.keySize == 4256) || (p.w == 16 && p.logW == 4 && p.len1 == 64 && p.len2 == 3 && p.len == 67 && p.keySize == 2144) || (p.w == 256 && p.logW == 8 && p.len1 == 32 && p.len2 == 2 && p.len == 34 && p.keySize == 1088))
@@ -426,6 +426,15 @@ package xmss
 //@ lemma xmss.L_chain_congX[XF] induction k uses xmss.L_randF_cong : forall k, hf, PS:arr, A:arr, X1:arr, X2:arr, s :: (forall d_ :: 0 <= d_ && d_ < 32 ==> X1[d_] == X2[d_]) ==> forall q_ :: 0 <= q_ && q_ < 32 ==> spec.chain(hf, PS, A, X1, s, k)[q_] == spec.chain(hf, PS, A, X2, s, k)[q_]
 // Chains compose: b further steps after a steps are a+b steps (the WOTS+ verification identity).
 //@ lemma xmss.L_chain_compose[XF] induction b : forall b, hf, PS:arr, A:arr, X:arr, s, a :: a >= 0 && s >= 0 ==> spec.chain(hf, PS, A, spec.chain(hf, PS, A, X, s, a), s + a, b) == spec.chainS(hf, PS, A, X, s, a + b)
+// ... with the second start as its own variable (a chain term whose start is not literally `s + a` still matches)
+//@ lemma xmss.L_chain_compose2[XF] uses xmss.L_chain_compose,-spec.chain : forall b, hf, PS:arr, A:arr, X:arr, s, a, s2 :: a >= 0 && s >= 0 && s2 == s + a ==> spec.chain(hf, PS, A, spec.chain(hf, PS, A, X, s, a), s2, b) == spec.chainS(hf, PS, A, X, s, a + b)
+// The WOTS+ identity (RFC 8391: WOTS_pkFromSig(WOTS_sign(M)) = WOTS_genPK), per chain: if the signature element i
+// is the secret chain advanced by digit_i steps, the verifier's remaining w-1-digit_i steps reach the public-key element.
+// every base-w digit (message or checksum part) is below w, for byte strings
+//@ lemma xmss.L_wdig_range[XF] : forall M:arr, mo, i, lw, w, len1, sh, nb :: (forall p_ :: 0 <= M[p_] && M[p_] <= 255) && ((lw == 2 && w == 4) || (lw == 4 && w == 16) || (lw == 8 && w == 256)) ==> 0 <= spec.wdig(M, mo, i, lw, w, len1, sh, nb) && spec.wdig(M, mo, i, lw, w, len1, sh, nb) <= w - 1
+//@ lemma xmss.L_wots_idA[XF] uses xmss.L_chain_congX,-spec.chain,-spec.wdig,-spec.wsigNode : forall hf, PS:arr, A:arr, SK:arr, sko, SG:arr, so, M:arr, mo, lw, w, len1, sh, nb, i, q_ :: (forall d_ :: 0 <= d_ && d_ < 32 ==> SG[so + 32*i + d_] == spec.wsigNode(hf, PS, A, SK, sko, M, mo, lw, w, len1, sh, nb, i)[d_]) && 0 <= q_ && q_ < 32 ==> spec.wpkNode(hf, PS, A, SG, so, M, mo, lw, w, len1, sh, nb, i)[q_] == spec.chain(hf, PS, store(A, 5, i), spec.wsigNode(hf, PS, A, SK, sko, M, mo, lw, w, len1, sh, nb, i), spec.wdig(M, mo, i, lw, w, len1, sh, nb), w - 1 - spec.wdig(M, mo, i, lw, w, len1, sh, nb))[q_]
+//@ lemma xmss.L_wots_idB[XF] uses xmss.L_chain_compose2,-spec.chain,-spec.wdig : forall hf, PS:arr, A:arr, SK:arr, sko, M:arr, mo, lw, w, len1, sh, nb, i :: 0 <= spec.wdig(M, mo, i, lw, w, len1, sh, nb) && spec.wdig(M, mo, i, lw, w, len1, sh, nb) <= w - 1 ==> spec.chain(hf, PS, store(A, 5, i), spec.wsigNode(hf, PS, A, SK, sko, M, mo, lw, w, len1, sh, nb, i), spec.wdig(M, mo, i, lw, w, len1, sh, nb), w - 1 - spec.wdig(M, mo, i, lw, w, len1, sh, nb)) == spec.wgenNode(hf, PS, A, SK, sko, w, i)
+//@ lemma xmss.L_wots_id[XF] uses xmss.L_wots_idA,xmss.L_wots_idB,-spec.chain,-spec.wdig,-spec.wsigNode,-spec.wpkNode,-spec.wgenNode : forall hf, PS:arr, A:arr, SK:arr, sko, SG:arr, so, M:arr, mo, lw, w, len1, sh, nb, i, q_ :: 0 <= spec.wdig(M, mo, i, lw, w, len1, sh, nb) && spec.wdig(M, mo, i, lw, w, len1, sh, nb) <= w - 1 && (forall d_ :: 0 <= d_ && d_ < 32 ==> SG[so + 32*i + d_] == spec.wsigNode(hf, PS, A, SK, sko, M, mo, lw, w, len1, sh, nb, i)[d_]) && 0 <= q_ && q_ < 32 ==> spec.wpkNode(hf, PS, A, SG, so, M, mo, lw, w, len1, sh, nb, i)[q_] == spec.wgenNode(hf, PS, A, SK, sko, w, i)[q_]
 //@ pred wsigN(hf, pubSeed, A, sk, msg, p, i) := spec.wsigNode(hf, spec.sub(pubSeed, 32), A, sk, msg, p.logW, p.w, p.len1, wShift(p), wBytes(p), i)
 //@ func wotsSign
 //@   use xmss.L_chain_cong2
@@ -613,24 +622,46 @@ package xmss
 
 // ---- C04: what Verify accepts ----
 
-// ---- C01X (parked, not claimed): WOTS+ sign-then-recover identity as a lemma function.  The callee contracts (wotsSign,
-// wotsPKFromSig, wOTSPKGen) and the lemmas L_chain_compose / L_chain_congX are discharged; the composition below is
-// written but the solvers do not find the instantiations reliably (triggers with arithmetic indices), so it carries a
-// tag that no property claims.
-//@ func verifLemmaWotsSignThenRecover
-//@   props C01X
-//@   use xmss.L_chain_compose
-//@   use xmss.L_chain_congX
+// wsigNode / wgenNode depend on the address only through words 0..4 (word 5 is the chain index) and on the secret
+// seed only through its 32 bytes.
+//@ lemma xmss.L_wsigNode_congA[XF] uses xmss.L_chain_cong,-spec.chain,-spec.wdig : forall hf, PS:arr, A1:arr, A2:arr, SK:arr, sko, M:arr, mo, lw, w, len1, sh, nb, i :: (forall w_ :: 0 <= w_ && w_ < 5 ==> A1[w_] == A2[w_]) ==> spec.wsigNode(hf, PS, A1, SK, sko, M, mo, lw, w, len1, sh, nb, i) == spec.wsigNode(hf, PS, A2, SK, sko, M, mo, lw, w, len1, sh, nb, i)
+//@ lemma xmss.L_wgenNode_cong[XF] uses xmss.L_chain_cong,-spec.chain : forall hf, PS:arr, A1:arr, A2:arr, SK1:arr, o1, SK2:arr, o2, w, i :: (forall w_ :: 0 <= w_ && w_ < 5 ==> A1[w_] == A2[w_]) && (forall d_ :: 0 <= d_ && d_ < 32 ==> SK1[o1+d_] == SK2[o2+d_]) ==> spec.wgenNode(hf, PS, A1, SK1, o1, w, i) == spec.wgenNode(hf, PS, A2, SK2, o2, w, i)
+//@ func verifLemmaLeafFromSignature
+//@   props C01L
+//@   inlines xmss.genLeafWOTS
+//@   use xmss.L_wots_id
+//@   use xmss.L_wdig_range
+//@   use xmss.L_wsigNode_congA
+//@   use xmss.L_wgenNode_cong
+//@   use xmss.L_lnode_cong2
 //@   hide spec.chain
+//@   hide spec.wdig
+//@   hide spec.wsigNode
+//@   hide spec.wpkNode
+//@   hide spec.wgenNode
+//@   hide spec.randHash
+//@   requires xmssParams.n == 32 && wotsOK(xmssParams.wotsParams) && len(msgHash) >= 32 && len(skSeed) >= 32 && len(pubSeed) >= 32
+//@   exit[C01L] hashFunction <= 2 ==> forall i_, q_ :: 0 <= i_ && i_ < params.len && 0 <= q_ && q_ < 32 ==> sig[32*i_+q_] == wsigN(hashFunction, pubSeed, arr(otsAddr), otsSeed, msgHash, params, i_)[q_]
+//@   exit[C01L] hashFunction <= 2 ==> forall i_, q_ :: 0 <= i_ && i_ < params.len && 0 <= q_ && q_ < 32 ==> pk[32*i_+q_] == wpkNode(hashFunction, pubSeed, arr(otsAddr), sig, msgHash, params, i_)[q_]
+//@   exit[C01L] hashFunction <= 2 ==> forall i_ :: 0 <= i_ && i_ < params.len ==> 0 <= wDigit(msgHash, params, i_) && wDigit(msgHash, params, i_) <= params.w - 1
+//@   exit[C01L] hashFunction <= 2 ==> forall i_, q_ :: 0 <= i_ && i_ < params.len && 0 <= q_ && q_ < 32 ==> pk[32*i_+q_] == wgenN(hashFunction, pubSeed, arr(otsAddr), otsSeed, params, i_)[q_]
+//@   ensures[C01L] hashFunction <= 2 ==> len(leafV) == 32 && len(leafG) == 32
+// ---- C01: the WOTS+ sign-then-recover identity as a lemma function over the real wotsSign, wotsPKFromSig and wOTSPKGen:
+// the public key recomputed from a signature of ANY message equals the generated public key (all three parameter sets).
+// The per-chain step is lemma L_wots_id (chain composition + congruence, both by induction).
+//@ func verifLemmaWotsSignThenRecover
+//@   props C01
+//@   use xmss.L_wots_id
+//@   use xmss.L_wdig_range
+//@   hide spec.chain
+//@   hide spec.wdig
+//@   hide spec.wsigNode
+//@   hide spec.wpkNode
+//@   hide spec.wgenNode
 //@   requires wotsOK(params) && len(msg) >= 32 && len(sk) >= 32 && len(pubSeed) >= 32
-//@   after xmss.wOTSPKGen 1 assert[C01X] hashFunction <= 2 ==> forall i_, q_ :: 0 <= i_ && i_ < params.len && 0 <= q_ && q_ < 32 ==> sig[32*i_+q_] == wsigN(hashFunction, pubSeed, arr(addr), sk, msg, params, i_)[q_]
-//@   after xmss.wOTSPKGen 1 assert[C01X] hashFunction <= 2 ==> forall i_, q_ :: 0 <= i_ && i_ < params.len && 0 <= q_ && q_ < 32 ==> pkFromSig[32*i_+q_] == wpkNode(hashFunction, pubSeed, arr(addr), sig, msg, params, i_)[q_]
-//@   after xmss.wOTSPKGen 1 assert[C01X] hashFunction <= 2 ==> forall i_, q_ :: 0 <= i_ && i_ < params.len && 0 <= q_ && q_ < 32 ==> pkGen[32*i_+q_] == wgenN(hashFunction, pubSeed, arr(addr), sk, params, i_)[q_]
-//@   after xmss.wOTSPKGen 1 assert[C01X] hashFunction <= 2 ==> forall i_ :: 0 <= i_ && i_ < params.len ==> 0 <= wDigit(msg, params, i_) && wDigit(msg, params, i_) <= params.w - 1
-//@   after xmss.wOTSPKGen 1 assert[C01X] hashFunction <= 2 ==> forall i_, q_ :: 0 <= i_ && i_ < params.len && 0 <= q_ && q_ < 32 ==> sig[32*i_+q_] == spec.chain(hashFunction, spec.sub(pubSeed, 32), store(arr(addr), 5, i_), spec.prfArr(hashFunction, spec.sub(sk, 32), spec.toByte32(i_)), 0, wDigit(msg, params, i_))[q_] from 1..1
-//@   after xmss.wOTSPKGen 1 assert[C01X] hashFunction <= 2 ==> forall i_, q_ :: 0 <= i_ && i_ < params.len && 0 <= q_ && q_ < 32 ==> spec.sub(sig[32*i_:], 32)[q_] == spec.chain(hashFunction, spec.sub(pubSeed, 32), store(arr(addr), 5, i_), spec.prfArr(hashFunction, spec.sub(sk, 32), spec.toByte32(i_)), 0, wDigit(msg, params, i_))[q_] from 5..5
-//@   after xmss.wOTSPKGen 1 assert[C01X] hashFunction <= 2 ==> forall i_, q_ :: 0 <= i_ && i_ < params.len && 0 <= q_ && q_ < 32 ==> pkFromSig[32*i_+q_] == spec.chain(hashFunction, spec.sub(pubSeed, 32), store(arr(addr), 5, i_), spec.sub(sig[32*i_:], 32), wDigit(msg, params, i_), params.w - 1 - wDigit(msg, params, i_))[q_] from 2..2
-//@   after xmss.wOTSPKGen 1 assert[C01X] hashFunction <= 2 ==> forall i_, q_ :: 0 <= i_ && i_ < params.len && 0 <= q_ && q_ < 32 ==> pkFromSig[32*i_+q_] == spec.chain(hashFunction, spec.sub(pubSeed, 32), store(arr(addr), 5, i_), spec.chain(hashFunction, spec.sub(pubSeed, 32), store(arr(addr), 5, i_), spec.prfArr(hashFunction, spec.sub(sk, 32), spec.toByte32(i_)), 0, wDigit(msg, params, i_)), wDigit(msg, params, i_), params.w - 1 - wDigit(msg, params, i_))[q_] from 6..7
-//@   after xmss.wOTSPKGen 1 assert[C01X] hashFunction <= 2 ==> forall i_, q_ :: 0 <= i_ && i_ < params.len && 0 <= q_ && q_ < 32 ==> pkFromSig[32*i_+q_] == spec.chain(hashFunction, spec.sub(pubSeed, 32), store(arr(addr), 5, i_), spec.prfArr(hashFunction, spec.sub(sk, 32), spec.toByte32(i_)), 0, params.w - 1)[q_] from 4..8
-//@   after xmss.wOTSPKGen 1 assert[C01X] hashFunction <= 2 ==> forall i_, q_ :: 0 <= i_ && i_ < params.len && 0 <= q_ && q_ < 32 ==> pkGen[32*i_+q_] == spec.chain(hashFunction, spec.sub(pubSeed, 32), store(arr(addr), 5, i_), spec.prfArr(hashFunction, spec.sub(sk, 32), spec.toByte32(i_)), 0, params.w - 1)[q_] from 3..3
-//@   ensures[C01X] hashFunction <= 2 ==> len(pkFromSig) == params.keySize && len(pkGen) == params.keySize && forall i_, q_ :: 0 <= i_ && i_ < params.len && 0 <= q_ && q_ < 32 ==> pkFromSig[32*i_+q_] == pkGen[32*i_+q_]
+//@   after xmss.wOTSPKGen 1 assert[C01] hashFunction <= 2 ==> forall i_, q_ :: 0 <= i_ && i_ < params.len && 0 <= q_ && q_ < 32 ==> sig[32*i_+q_] == wsigN(hashFunction, pubSeed, arr(addr), sk, msg, params, i_)[q_]
+//@   after xmss.wOTSPKGen 1 assert[C01] hashFunction <= 2 ==> forall i_, q_ :: 0 <= i_ && i_ < params.len && 0 <= q_ && q_ < 32 ==> pkFromSig[32*i_+q_] == wpkNode(hashFunction, pubSeed, arr(addr), sig, msg, params, i_)[q_]
+//@   after xmss.wOTSPKGen 1 assert[C01] hashFunction <= 2 ==> forall i_, q_ :: 0 <= i_ && i_ < params.len && 0 <= q_ && q_ < 32 ==> pkGen[32*i_+q_] == wgenN(hashFunction, pubSeed, arr(addr), sk, params, i_)[q_]
+//@   after xmss.wOTSPKGen 1 assert[C01] hashFunction <= 2 ==> forall i_ :: 0 <= i_ && i_ < params.len ==> 0 <= wDigit(msg, params, i_) && wDigit(msg, params, i_) <= params.w - 1
+//@   after xmss.wOTSPKGen 1 assert[C01] hashFunction <= 2 ==> forall i_, q_ :: 0 <= i_ && i_ < params.len && 0 <= q_ && q_ < 32 ==> wpkNode(hashFunction, pubSeed, arr(addr), sig, msg, params, i_)[q_] == wgenN(hashFunction, pubSeed, arr(addr), sk, params, i_)[q_] from 1..4
+//@   ensures[C01] hashFunction <= 2 ==> len(pkFromSig) == params.keySize && len(pkGen) == params.keySize && forall i_, q_ :: 0 <= i_ && i_ < params.len && 0 <= q_ && q_ < 32 ==> pkFromSig[32*i_+q_] == pkGen[32*i_+q_] && pkGen[32*i_+q_] == wgenN(hashFunction, pubSeed, arr(addr), sk, params, i_)[q_]
